@@ -152,4 +152,46 @@ META = {
         "text": "In every explored run no two replicas committed different blocks at one height, no atomic snapshot of the nodes showed two block ids of one height each on a quorum, and no node's fencing epoch ever decreased while it kept its data. A quick run covers 12 directed scenarios and 16 universes of 22 s, with 2-3 replicas and 3-5 nodes each; faults: partitions, lost requests and replies, late script execution after client timeout, resets, forced lease expiry, data loss on <= budget nodes, replica crashes, crash between publish and commit. Runs without elections, publishes, rejections of each kind, repairs, late writes, wipes or completed scenarios are inconclusive. The fork defect found by this monitor (write_block.lua early exit) was repaired by a fix: commit.",
         "note": "Trusted base: a self-written Redis emulation (RESP2 framing, EVALSHA/NOSCRIPT/SCRIPT LOAD flow, GET/SET PX NX/DEL/INCR/PEXPIRE/TIME/XADD/XRANGE/XREVRANGE/XLEN/XTRIM, strings with TTL, streams with monotonic ids, per-node atomic script execution, Redis 7 Lua<->RESP conversion) and a Lua 5.1 subset interpreter, checked at every start by 227 hand-computed expectations incl. every branch of the six scripts on frozen reference copies; anything outside the emulated subset makes the run inconclusive. The replica loop is the harness's mirror of MainTask::try_to_produce_block plus the importer. Interleavings are those produced; stream trimming is not exercised; no clock skew between nodes (forced lease expiry stands in).",
     },
+    "C01": {
+        "ready": True,
+        "technique": 'runtime monitoring: seeded generated chain sessions on the real upgradable executor (chaingen) + independent oracle',
+        "text": 'Held on the executions produced: every block produced from generated transaction lists (all tx types, reverts/panics, invalid and colliding txs, 8 source behaviours, relayer events) was accepted by validate() on the same parent with identical canonical Changes, statuses and events; two validations agreed. Open finding: stale events of a skipped tx with utxo validation off.',
+        "note": 'Trusted: chaingen harness, sorted-Changes comparison, Debug rendering of statuses/events; in-memory parents only.',
+    },
+    "C02": {
+        "ready": True,
+        "technique": 'runtime monitoring: seeded generated chain sessions on the real upgradable executor (chaingen) + independent oracle',
+        "text": "Held on the executions produced: after every committed block the real Coins/Messages tables equalled an independent UTXO model and the reported coin/message events equalled both the model's expectation and the real table diff; no zero-amount or re-used coin ids; DA height respected on message spends.",
+        "note": "Trusted: UtxoModel (written from the property text), the harness's copy of the relayer history; UTXO validation on.",
+    },
+    "C03": {
+        "ready": True,
+        "technique": 'runtime monitoring: seeded generated chain sessions on the real upgradable executor (chaingen) + independent oracle',
+        "text": 'Held on the executions produced: every produced block ended in exactly one mint with the right index, price, asset and amount = sum of charged fees; gas and count limits held for limit-ignoring sources; validate() refused every mutated mint (8-13 mutants per block, with original and regenerated header). Open findings: size limit not enforced by the executor / exceeded by forced txs; fee minted vs charged for predicate inputs.',
+        "note": "Trusted: arithmetic over block and statuses; DA advances follow the producer's cost rule; count limit = max_tx_count() of this build (1024, feature limited-tx-count).",
+    },
+    "C04": {
+        "ready": True,
+        "technique": 'runtime monitoring: seeded generated chain sessions on the real upgradable executor (chaingen) + independent oracle',
+        "text": 'Held on the executions produced: failed scripts, executed alone, changed only the allowed tables (inputs, outputs, processed id, latest utxo, coinbase balance), kept retryable messages, produced no outbox message and paid their fee; skipped txs changed nothing, alone and in context.',
+        "note": 'Trusted: attribution by single-tx block vs empty block on the same parent; the storage-write-before-failure evidence comes from receipts; fee equality not demanded for predicate inputs (only that a positive fee left the payer).',
+    },
+    "C05": {
+        "ready": True,
+        "technique": 'runtime monitoring: seeded generated chain sessions on the real upgradable executor (chaingen) + independent oracle',
+        "text": "Held on the executions produced: blocks imported exactly the relayer's events of heights p+1..=d in order, no message twice over the history, every forced tx was executed or reported failed, and event_inbox_root matched an own RFC 6962 root; the block also validated.",
+        "note": "Trusted: the harness's copy of the relayer history, own Merkle root; event hashes taken from the event types; both tx-id and relayed-tx-id forms of ForcedTransactionFailed accepted (counted).",
+    },
+    "C06": {
+        "ready": True,
+        "technique": 'runtime monitoring: seeded generated chain sessions on the real upgradable executor (chaingen) + independent oracle',
+        "text": 'Held on the executions produced: no tx id executed twice over generated histories with same-block, next-block and late resubmissions (also without UTXO validation); the processed table equalled the history; validate() refused all hand-assembled blocks containing processed ids.',
+        "note": "Trusted: the session's own log of committed blocks; no regenesis leg (C39 covers processed ids across regenesis).",
+    },
+    "C07": {
+        "ready": True,
+        "technique": 'runtime monitoring: seeded generated chain sessions on the real upgradable executor (chaingen) + independent oracle',
+        "text": 'Held on the executions produced: native and WASM executors over the same parent agreed on produced block, Changes, statuses, events, skipped ids and error variants, dry runs, and accept/reject (with error variant) of valid and invalid blocks.',
+        "note": "Trusted: the WASM blob embedded by the harness build (rebuilt from /repo by the crate's build.rs); error variants compared by name; blocks far below 1024 txs.",
+    },
 }
